@@ -2,6 +2,7 @@ package file
 
 import (
 	"context"
+	"errors"
 	"io"
 
 	"github.com/ipld/go-ipld-prime"
@@ -96,16 +97,20 @@ func (f *singleNodeReader) Seek(offset int64, whence int) (int64, error) {
 		return 0, err
 	}
 
+	next := int64(f.offset)
 	switch whence {
 	case io.SeekStart:
-		f.offset = int(offset)
+		next = offset
 	case io.SeekCurrent:
-		f.offset += int(offset)
+		next += offset
 	case io.SeekEnd:
-		f.offset = len(buf) + int(offset)
+		next = int64(len(buf)) + offset
 	}
-	if f.offset < 0 {
-		return 0, io.EOF
+	if next < 0 {
+		return int64(f.offset), errNegativeSeek
 	}
-	return int64(f.offset), nil
+	f.offset = int(next)
+	return next, nil
 }
+
+var errNegativeSeek = errors.New("unixfs file: seek to negative position")
